@@ -9,7 +9,7 @@ by enumerations / sentinels / scales / text / comm state is decided by C10-C13, 
 from __future__ import annotations
 from ..domains import IntSet
 from ..spec import itu
-from .common import flatten, unwrap_message, sources, strip_wrappers, last, inline_flag
+from .common import check_derived_impls, flatten, unwrap_message, sources, strip_wrappers, last, inline_flag
 
 
 def infer_shape(struct, flat, outcome):
@@ -270,6 +270,7 @@ def run(ctx, chk):
         chk.ob(want <= got, "C04/coverage/%s/%s" % (cfg, sorted(want - got)),
                "no Ok partition extracted for message types %s in config %s" % (sorted(want - got), cfg))
     chk.cov["fields_compared"] = nfields
+    check_derived_impls(ctx, chk, "C04", cfgs, lambda short, full: full.startswith("messages::"), 60, "that the decoded fields are the transmitted ones as a user compares or copies them")
     chk.cov["configs"] = cfgs
     chk.cov["programs"] = len(cfgs)
     chk.cov["trusted_base"] = ["rustc MIR (nightly ad3a598ca)", "nom 7.1.3 bits::complete::take / bits / count / many_m_n contracts", "ITU-R M.1371-5 tables in analysis/aislint/spec/itu.py"]
